@@ -31,6 +31,7 @@ def d_conformant(g, tier):
         ops += gen.conformant_session(g, npk=g.r.choice([4, 8, 12]))
     for i in range(6 if tier == "quick" else 60):
         ops += gen.floats_session(g)
+    ops += late_sessions(g, tier)
     return ops
 
 
@@ -39,6 +40,15 @@ def d_mutate(g, tier):
     ops = []
     for i in range(n):
         ops += gen.mutate_session(g, npk=g.r.choice([4, 8]))
+    return ops
+
+
+def late_sessions(g, tier):
+    ops = []
+    for i in range(3 if tier == "quick" else 30):
+        for proto in ("v9", "ipfix"):
+            for kind in ("data", "opts"):
+                ops += gen.late_template_session(g, proto, kind)
     return ops
 
 
@@ -165,7 +175,7 @@ PROP_DRIVERS = {
     "C04": ["corpus", "conformant", "protocols"],
     "C05": ["corpus", "conformant"],
     "C06": ["corpus", "conformant", "mutate", "rounds", "hostile"],
-    "C07": ["corpus", "conformant", "mutate"],
+    "C07": ["corpus", "conformant", "mutate", "hostile"],
     "C08": ["corpus", "conformant", "mutate", "struct", "protocols"],
     "C09": ["corpus", "conformant", "mutate", "hostile"],
     "C10": ["corpus", "conformant", "mutate", "hostile"],
